@@ -1,5 +1,6 @@
 import GoflowModel.Engine.Inspect
 import GoflowModel.Gen.Actions
+import GoflowModel.Gen.ActionRefs
 import GoflowModel.Lemmas.Engine
 /-!
 # C20 — Flow inspection over-approximates what a run can do
@@ -54,6 +55,20 @@ theorem categories_table_covers :
     (Gen.Actions.actionCategories.map (·.1)) =
       ["call_classifier", "call_resthook", "call_webhook", "open_ticket", "set_run_result", "transfer_airtime"] ∧
     Gen.Actions.actionCategories.lookup "call_resthook" = some (["Failure", "Success"], ["Failure", "Success"]) := by
+  decide
+
+/-- **Dependencies**: every field of every registered action type that can hold a fixed asset
+reference — found by reflection through embedded and nested structs and slices, each filled with a
+reference of its own — is reported by inspection's dependency extraction (`inspect.Dependencies`);
+regenerated on every run by executing the linked code.  A reference field that inspection does
+not walk (unexported, behind a type it does not descend into, skipped by a condition) shows as
+`false`. -/
+theorem reference_fields_reported : Gen.ActionRefs.fields.all (fun r => r.2.2.2) = true := by decide
+
+/-- the census is not empty and names the asset kinds the statement lists -/
+theorem reference_fields_cover :
+    (Gen.ActionRefs.fields.map (fun r => r.2.2.1)).eraseDups =
+      ["group", "label", "classifier", "flow", "user", "topic", "optin", "contact", "template", "channel", "field"] := by
   decide
 
 /-- the registered action and router types are the ones the models know -/
